@@ -406,7 +406,7 @@ func TestVfC06Reuse(t *testing.T) {
 // transport's own response timeout (6 s). The server stays silent past it, replies late (before or after
 // the next query arrives, whole or in chunks), and further exchanges follow.
 func TestVfC06RespTimeout(t *testing.T) {
-	st := vfkit.Stats("TestVfC06RespTimeout", "a non-pipelined connection whose server stays silent beyond the transport's 6 s response timeout for exchange 1 (no caller deadline), then sends the late reply before / after 1-3 further exchanges start, whole or in two chunks; oracle: the server never sees a query on a connection whose previous reply is outstanding, and every returned message answers the exchange's own query; non-trivial = every case")
+	st := vfkit.Stats("TestVfC06RespTimeout", "a non-pipelined connection whose server stays silent beyond the transport's 6 s response timeout for exchange 1 (no caller deadline; in one case of three after the first 3 / 5 / 14 / all-but-one octets of the reply), then sends the late reply (or its remainder) before / after 1-3 further exchanges start, whole or in two chunks; oracle: the server never sees a query on a connection whose previous reply is outstanding, and every returned message answers the exchange's own query; non-trivial = every case")
 	defer vfkit.Flush()
 	rapid.Check(t, func(t *rapid.T) {
 		srv := &vfServerSide{}
@@ -416,6 +416,9 @@ func TestVfC06RespTimeout(t *testing.T) {
 		chunked := rapid.Bool().Draw(t, "chunked")
 		followers := rapid.IntRange(1, 3).Draw(t, "followers")
 		warm := rapid.IntRange(0, 2).Draw(t, "warmConnection") == 0
+		// the reply to exchange 1 may also have begun before the silence: its first 3, 5 or 14 octets, or all but the last
+		// one, arrive at once - the rest only after the response timeout (a reply that was started is not a consumed one)
+		partial := rapid.SampledFrom([]int{0, 0, 3, 5, 14, -1}).Draw(t, "octetsBeforeTheSilence")
 
 		type answer struct {
 			gotMsg bool
@@ -513,6 +516,21 @@ func TestVfC06RespTimeout(t *testing.T) {
 		if !ok {
 			vfkit.Inconclusive("C06 timeout: query 1 never written")
 		}
+		f1 := vfFrame(vfReply(q1.wid, q1.tok, 1001))
+		if partial < 0 {
+			partial = len(f1) - 1
+		}
+		if partial > 0 {
+			srv.snapshot()[q1.conn].Deliver(f1[:partial])
+		}
+		lateReply := func() {
+			if partial > 0 {
+				srv.snapshot()[q1.conn].Deliver(f1[partial:])
+				outstanding[q1.conn] = false
+				return
+			}
+			reply(q1, 1001, chunked)
+		}
 		var a1 answer
 		select {
 		case a1 = <-ch1:
@@ -523,7 +541,7 @@ func TestVfC06RespTimeout(t *testing.T) {
 		check(a1, 1, 11)
 		if lateFirst {
 			if !srv.snapshot()[q1.conn].ClientClosed() {
-				reply(q1, 1001, chunked)
+				lateReply()
 				time.Sleep(5 * time.Millisecond)
 			} else {
 				outstanding[q1.conn] = false
@@ -544,7 +562,7 @@ func TestVfC06RespTimeout(t *testing.T) {
 				}
 			}
 			if !lateFirst && f == 0 && !srv.snapshot()[q1.conn].ClientClosed() && q.conn != q1.conn {
-				reply(q1, 1001, chunked) // the late reply arrives while the follower is waiting elsewhere
+				lateReply() // the late reply arrives while the follower is waiting elsewhere
 			}
 			reply(q, 1000+tok, false)
 			select {
@@ -555,7 +573,7 @@ func TestVfC06RespTimeout(t *testing.T) {
 			}
 		}
 		poll()
-		st.Case(vfkit.Fingerprint(lateFirst, chunked, followers, warm), true, nil, func() any {
+		st.Case(vfkit.Fingerprint(lateFirst, chunked, followers, warm, partial), true, []string{fmt.Sprintf("reply-begun-before-the-silence=%v", partial > 0)}, func() any {
 			return map[string]any{"late_reply_before_next_query": lateFirst, "chunked": chunked, "followers": followers, "warm": warm, "connections": len(srv.snapshot())}
 		})
 	})
